@@ -5,6 +5,7 @@ package main
 import (
 	"encoding/json"
 	"fmt"
+	"reflect"
 	"go/constant"
 	"go/token"
 	"go/types"
@@ -135,6 +136,9 @@ func ruleTypeAssertions(c *Ctx, rule string, pkgs []string, floor int) {
 		}
 	}
 	r.Floor(rule, "non-comma-ok type assertions examined", n, floor)
+	if n == 0 {
+		r.Ob(rule, "no unguarded type assertion in "+strings.Join(pkgs, ", "), "").OK("the packages contain no non-comma-ok type assertion: nothing can panic here")
+	}
 }
 
 // ---------------------------------------------------------------------------------------------
@@ -143,7 +147,7 @@ func ruleTypeAssertions(c *Ctx, rule string, pkgs []string, floor int) {
 type mapEntry struct {
 	key   string
 	src   string // description of the stored value
-	in    *ssa.MapUpdate
+	in    ssa.Instruction
 	conds []string
 }
 
@@ -226,6 +230,19 @@ func ruleJSONShape(c *Ctx, rule string) {
 		cds := pd.ControlDeps()
 		entries := map[string]*mapEntry{}
 		var mapVal ssa.Value
+		condsAt := func(b *ssa.BasicBlock) []string {
+			var out []string
+			for _, ce := range cds[b] {
+				if iff, ok := ce.Branch.Instrs[len(ce.Branch.Instrs)-1].(*ssa.If); ok {
+					d := describeValue(iff.Cond, recv)
+					if ce.Succ == 1 {
+						d = "!" + d
+					}
+					out = append(out, d)
+				}
+			}
+			return out
+		}
 		instrsOf(fn, func(in ssa.Instruction) {
 			mu, ok := in.(*ssa.MapUpdate)
 			if !ok {
@@ -235,19 +252,89 @@ func ruleJSONShape(c *Ctx, rule string) {
 			if !ok || k.Value == nil || k.Value.Kind() != constant.String {
 				return
 			}
-			e := &mapEntry{key: constant.StringVal(k.Value), src: describeValue(mu.Value, recv), in: mu}
-			for _, ce := range cds[mu.Block()] {
-				if iff, ok := ce.Branch.Instrs[len(ce.Branch.Instrs)-1].(*ssa.If); ok {
-					d := describeValue(iff.Cond, recv)
-					if ce.Succ == 1 {
-						d = "!" + d
-					}
-					e.conds = append(e.conds, d)
-				}
-			}
+			e := &mapEntry{key: constant.StringVal(k.Value), src: describeValue(mu.Value, recv), in: mu, conds: condsAt(mu.Block())}
 			entries[e.key] = e
 			mapVal = mu.Map
 		})
+		// the object may also be a struct with json tags: the keys are the tag names, the sources what is stored into the fields
+		structObj := false
+		if len(entries) == 0 {
+			instrsOf(fn, func(in ssa.Instruction) {
+				call, ok := in.(*ssa.Call)
+				if !ok || len(call.Call.Args) == 0 {
+					return
+				}
+				sc := call.Call.StaticCallee()
+				if sc == nil || sc.Pkg == nil || sc.Pkg.Pkg.Path() != "encoding/json" || !strings.HasPrefix(sc.Name(), "Marshal") {
+					return
+				}
+				mi, ok := call.Call.Args[0].(*ssa.MakeInterface)
+				if !ok {
+					return
+				}
+				var alloc *ssa.Alloc
+				switch x := mi.X.(type) {
+				case *ssa.UnOp:
+					alloc, _ = x.X.(*ssa.Alloc)
+				case *ssa.Alloc:
+					alloc = x
+				}
+				if alloc == nil {
+					return
+				}
+				st, ok := deref(alloc.Type()).Underlying().(*types.Struct)
+				if !ok {
+					return
+				}
+				structObj = true
+				mapVal = mi.X
+				for i := 0; i < st.NumFields(); i++ {
+					tag := reflect.StructTag(st.Tag(i)).Get("json")
+					key, opts, _ := strings.Cut(tag, ",")
+					if key == "-" {
+						continue
+					}
+					if key == "" {
+						key = st.Field(i).Name()
+					}
+					omitempty := strings.Contains(opts, "omitempty")
+					_, isPtr := st.Field(i).Type().Underlying().(*types.Pointer)
+					var e *mapEntry
+					for _, ref := range *alloc.Referrers() {
+						fa, ok := ref.(*ssa.FieldAddr)
+						if !ok || fa.Field != i {
+							continue
+						}
+						for _, r2 := range *fa.Referrers() {
+							stv, ok := r2.(*ssa.Store)
+							if !ok || stv.Addr != ssa.Value(fa) {
+								continue
+							}
+							val := stv.Val
+							// a pointer to a local that holds the value
+							if a2, ok := val.(*ssa.Alloc); ok {
+								for _, r3 := range *a2.Referrers() {
+									if s3, ok := r3.(*ssa.Store); ok && s3.Addr == ssa.Value(a2) {
+										val = s3.Val
+									}
+								}
+							}
+							e = &mapEntry{key: key, src: describeValue(val, recv), in: stv, conds: condsAt(stv.Block())}
+						}
+					}
+					switch {
+					case e == nil && omitempty:
+						continue // never set: the key is never emitted
+					case e == nil:
+						e = &mapEntry{key: key, src: "zero value", in: call}
+					case omitempty && !isPtr:
+						e.conds = append(e.conds, "value is not empty")
+					}
+					entries[key] = e
+				}
+			})
+		}
+		_ = structObj
 		name := w.pkg + "." + w.typ + ".MarshalJSON"
 		for _, k := range sortedKeys(w.keys) {
 			ob := r.Ob(rule, fmt.Sprintf("%s: key %q", name, k), c.pos(fn.Pos()))
@@ -281,6 +368,14 @@ func ruleJSONShape(c *Ctx, rule string) {
 				if sc := call.Call.StaticCallee(); sc != nil && sc.Pkg != nil && sc.Pkg.Pkg.Path() == "encoding/json" && strings.HasPrefix(sc.Name(), "Marshal") && len(call.Call.Args) > 0 {
 					if mi, ok := call.Call.Args[0].(*ssa.MakeInterface); ok && mi.X == mapVal {
 						okRet = true
+					}
+					// a struct-typed object is loaded right before the call: compare the location
+					if mi, ok := call.Call.Args[0].(*ssa.MakeInterface); ok && mapVal != nil {
+						if u1, ok := mi.X.(*ssa.UnOp); ok {
+							if u2, ok := mapVal.(*ssa.UnOp); ok && u1.X == u2.X {
+								okRet = true
+							}
+						}
 					}
 				}
 			}
